@@ -18,6 +18,8 @@ var worlds = map[string]kernel.WorldFunc{
 	"C05": props.RunC05,
 	"C07": props.RunC07,
 	"C08": props.RunC08,
+	"C15": props.RunC15,
+	"C09": props.RunC09,
 }
 
 // TestSim is the single entry point of the test binary; the driver script
